@@ -53,13 +53,22 @@ def main():
         i = args.index("--jobs")
         jobs = int(args[i + 1])
         del args[i:i + 2]
-    ids = [a for a in args if not a.startswith("--")] or sorted(x for x in os.listdir(SEEDED) if re.match(r"C\d\d-\d+$", x))
     out_path = os.path.join(SEEDED, "RESULTS.json")
+    if "--out" in args:
+        i = args.index("--out")
+        out_path = args[i + 1]
+        del args[i:i + 2]
+    only = None
+    if "--checks" in args:
+        i = args.index("--checks")
+        only = args[i + 1].split(",")
+        del args[i:i + 2]
+    ids = [a for a in args if not a.startswith("--")] or sorted(x for x in os.listdir(SEEDED) if re.match(r"C\d\d-\d+$", x))
     results = {}
     if os.path.exists(out_path):
         results = json.load(open(out_path))
     with concurrent.futures.ThreadPoolExecutor(max_workers=jobs) as ex:
-        futs = [ex.submit(one, s, ALL if allc else [s[:3]]) for s in ids]
+        futs = [ex.submit(one, s, only or (ALL if allc else [s[:3]])) for s in ids]
         for f in concurrent.futures.as_completed(futs):
             seed, res = f.result()
             results.setdefault(seed, {}).update(res)
